@@ -5,6 +5,6 @@ MODELS = ["Geom", "Aero"]
 STREAMS = [geom.stream_transformations, geom.stream_chain]
 ORACLES = [c13.oracle_defaults, c13.oracle_effects]
 UNPROVED = ["B-spline partition of unity (equal control points give a constant distribution) is OpenMDAO's SplineComp: checked per instance by the oracle, not proved",
-            "dihedral keeps planform area / chord scaling about the axis for full-span surfaces follow the proved left-half statements; the full-span taper profile is validated by the oracle"]
+            "dihedral keeps planform area / chord scaling about the axis for full-span surfaces follow the proved left-half statements (the full-span taper profile itself is proved: C13_taper_full_span_linear_from_centre_to_both_tips)"]
 ASSUMPTIONS = ["one recorded finding (F06): at default twist the Rotate component rotates cambered / pre-twisted sections about x on any wing whose reference axis has a spanwise slope",
                "default span is a no-op only for meshes whose chordwise lines have constant y (proved necessary: Stretch assigns one y to a whole chord line)"]
